@@ -59,6 +59,13 @@ class TU:
             for i, f in enumerate(ls):
                 f.lambda_index = i + 1
         self.lambdas_of = kids
+        # overload ordinals: patterns that share a key are numbered by source order
+        pl = defaultdict(set)
+        for p in self.patterns:
+            pl[short(p['key'])].add(p['line'])
+        for f in self.fns:
+            pl[f.skey].add(f.line)
+        self.overloads = {k: sorted(v) for k, v in pl.items() if len(v) > 1}
         self.class_by_q = {c['q']: c for c in self.classes}
         self.classes_by_key = defaultdict(list)
         for c in self.classes:
@@ -148,6 +155,11 @@ class Fn:
             p = self.tu.by_id.get(self.parent_id)
             if p is not None:
                 return '%s::lambda#%d' % (p.pattern(), self.lambda_index)
+        ov = self.tu.overloads.get(self.skey)
+        if ov and self.line in ov and self.kind not in ('ctor',):
+            return '%s#%d' % (self.skey, ov.index(self.line) + 1)
+        if ov and self.kind == 'ctor':
+            return '%s#%s' % (self.skey, self.d.get('ctor', 'other') if self.d.get('ctor') != 'other' else str(ov.index(self.line) + 1))
         return self.skey
 
     def parent_fn(self):
